@@ -8,7 +8,8 @@
    [std_requests op] the frames CiA 305 prescribes for a call; [fs_wf] a well-formed fast-scan request;
    [extends st st'] "st' has sent some more frames than st, all of them well-formed fast-scan requests". *)
 From Coq Require Import ZArith List Bool.
-From CV Require Import Base.Val Base.Bytes Base.Tys Gen.LssTables Model.RefLssSlave Model.Lss Proofs.Lss_proofs.
+From CV Require Import Base.Val Base.Bytes Base.Tys Gen.LssTables Gen.SrcC18 Model.RefLssSlave Model.Lss Proofs.Lss_proofs
+  Proofs.Src_eq_c18.
 Import ListNotations.
 Open Scope Z_scope.
 
@@ -181,6 +182,123 @@ Example C18_nv_results :
   snd (configure_node_id slave_step (mkM [[17; 0]] (mkSlave [1; 2; 3; 4] ST_CONFIGURATION 255 0 0 0 0 0 0 0 0) []) 200) = Err E_LSS.
 Proof. vm_compute. repeat split; try reflexivity; discriminate. Qed.
 
+(* ---- tie (c): the decision logic translated from the CURRENT source text of canopen/lss.py (Gen/SrcC18.v, regenerated
+        on every run by tools/tables/src_c18.py) determines the model functions the theorems above speak about ---- *)
+(* __send_fast_scan_message: frame = '<BIBBB' of (0x51, id number, bit_check, lss_sub, lss_next); silence = no,
+   otherwise yes iff byte 0 of the reply is CS_IDENTIFY_SLAVE *)
+Theorem C18_src_send_fast_scan_message : forall (P : Type) (peer : P -> Z -> list Z -> P * list (Z * list Z)) (st : mstate P) idn bc sub nxt,
+  u32 idn -> u8 bc -> u8 sub -> u8 nxt ->
+  let '(p0, p1, p2, p3, p4, _) := src_send_fast_scan_message idn bc sub nxt true 0 in
+  send_fast_scan_message peer st idn bc sub nxt =
+  match send_command peer st (p0 :: le_encode 4 p1 ++ [p2; p3; p4]) with
+  | (st1, Err k) =>
+      if k =? E_LSS then (st1, Ok (snd (src_send_fast_scan_message idn bc sub nxt true 0))) else (st1, Err k)
+  | (st1, Abort c) => (st1, Abort c)
+  | (st1, Ok None) => (st1, Err E_TYPE)
+  | (st1, Ok (Some [])) => (st1, Err E_STRUCT)
+  | (st1, Ok (Some (r0 :: _))) => (st1, Ok (snd (src_send_fast_scan_message idn bc sub nxt false r0)))
+  end.
+Proof. exact @src_send_fast_scan_message_eq. Qed.
+
+(* fast_scan: the inner loop runs while lss_bit_check > 0 ... *)
+Theorem C18_src_scan_bits_continue : forall n,
+  src_scan_bits_continue (Z.of_nat n) = match n with O => false | S _ => true end.
+Proof. exact src_scan_bits_continue_eq. Qed.
+
+(* ... and one unfolding of the model's inner loop is the translated loop body *)
+Theorem C18_src_scan_bit : forall (P : Type) (peer : P -> Z -> list Z -> P * list (Z * list Z)) (st : mstate P) k idn sub nxt,
+  fst (src_scan_bit idn (Z.of_nat (S k)) sub nxt true) = Z.of_nat k /\
+  scan_bits peer (S k) st idn sub nxt =
+  sbind (send_fast_scan_message peer st idn (fst (src_scan_bit idn (Z.of_nat (S k)) sub nxt true)) sub nxt)
+        (fun st found => scan_bits peer k st (snd (src_scan_bit idn (Z.of_nat (S k)) sub nxt found)) sub nxt).
+Proof. exact (fun P peer st k => @src_scan_bit_eq P peer k st). Qed.
+
+(* the outer loop runs while lss_sub < 4 (n parts left = lss_sub is 4 - n) ... *)
+Theorem C18_src_scan_parts_continue : forall n, (n <= 4)%nat ->
+  src_scan_parts_continue (4 - Z.of_nat n) = match n with O => false | S _ => true end.
+Proof. exact src_scan_parts_continue_eq. Qed.
+
+(* ... and one unfolding of the model's outer loop is the translated body around the inner loop *)
+Theorem C18_src_scan_part : forall (P : Type) (peer : P -> Z -> list Z -> P * list (Z * list Z)) (st : mstate P) k l sub nxt,
+  src_scan_bits_continue 0 = false /\
+  scan_parts peer (S k) st l sub nxt =
+  sbind (scan_bits peer (Z.to_nat src_scan_part_pre) st (nth (Z.to_nat sub) l 0) sub nxt) (fun st idn =>
+  sbind (send_fast_scan_message peer st idn 0 sub (snd (src_scan_part_post sub nxt true))) (fun st ok =>
+  let '(go, sub', nxt') := src_scan_part_post sub nxt ok in
+  if go then scan_parts peer k st (upd l sub idn) sub' nxt' else (st, Ok (false, None)))).
+Proof. exact (fun P peer st k => @src_scan_part_eq P peer k st). Qed.
+
+Theorem C18_src_fast_scan_init : forall (P : Type) (peer : P -> Z -> list Z -> P * list (Z * list Z)) (st : mstate P),
+  let '(id0, bc, sub, nxt) := src_fast_scan_init in
+  fast_scan peer st =
+  sbind (send_fast_scan_message peer st id0 bc sub nxt) (fun st ok =>
+  if ok then scan_parts peer 4 st [id0; id0; id0; id0] sub nxt else (st, Ok (false, None))).
+Proof. exact @src_fast_scan_init_eq. Qed.
+
+Theorem C18_src_send_inquire_node_id : forall (P : Type) (peer : P -> Z -> list Z -> P * list (Z * list Z)) (st : mstate P),
+  inquire_node_id peer st =
+  match send_command peer st [fst (fst (src_send_inquire_node_id 0 0 0)); 0; 0; 0; 0; 0; 0; 0] with
+  | (st1, Ok (Some (r0 :: r1 :: _))) =>
+      let '(_, code, v) := src_send_inquire_node_id r0 r1 0 in
+      if code =? 1 then (st1, Ok v) else (st1, Err E_LSS)
+  | (st1, Ok (Some _)) => (st1, Err E_STRUCT)
+  | (st1, Ok None) => (st1, Err E_TYPE)
+  | (st1, Err k) => (st1, Err k)
+  | (st1, Abort c) => (st1, Abort c)
+  end.
+Proof. exact @src_send_inquire_node_id_eq. Qed.
+
+Theorem C18_src_send_inquire_lss_address : forall (P : Type) (peer : P -> Z -> list Z -> P * list (Z * list Z)) (st : mstate P) cs, u8 cs ->
+  (forall r0 r1 b, fst (fst (src_send_inquire_lss_address cs r0 r1 b)) = cs) /\
+  inquire_lss_address peer st cs =
+  match send_command peer st [cs; 0; 0; 0; 0; 0; 0; 0] with
+  | (st1, Ok (Some l)) =>
+      if 5 <=? zlen l then
+        let '(_, code, v) := src_send_inquire_lss_address cs (nth 0 l 0) (le_decode (firstn 4 (skipn 1 l))) 0 in
+        if code =? 1 then (st1, Ok v) else (st1, Err E_LSS)
+      else (st1, Err E_STRUCT)
+  | (st1, Ok None) => (st1, Err E_TYPE)
+  | (st1, Err k) => (st1, Err k)
+  | (st1, Abort c) => (st1, Abort c)
+  end.
+Proof. exact @src_send_inquire_lss_address_eq. Qed.
+
+Theorem C18_src_send_configure : forall (P : Type) (peer : P -> Z -> list Z -> P * list (Z * list Z)) (st : mstate P) cs v1 v2, u8 cs -> u8 v1 -> u8 v2 ->
+  (forall r0 r1 x y z, let '(b0, b1, b2, _) := src_send_configure cs v1 v2 r0 r1 x y z in (b0, b1, b2) = (cs, v1, v2)) /\
+  send_configure peer st cs v1 v2 =
+  match send_command peer st [cs; v1; v2; 0; 0; 0; 0; 0] with
+  | (st1, Ok (Some (r0 :: r1 :: _))) =>
+      let '(_, _, _, code) := src_send_configure cs v1 v2 r0 r1 0 0 0 in
+      if code =? 1 then (st1, Ok tt) else (st1, Err E_LSS)
+  | (st1, Ok (Some _)) => (st1, Err E_STRUCT)
+  | (st1, Ok None) => (st1, Err E_TYPE)
+  | (st1, Err k) => (st1, Err k)
+  | (st1, Abort c) => (st1, Abort c)
+  end.
+Proof. exact @src_send_configure_eq. Qed.
+
+Theorem C18_src_configure_services : forall (P : Type) (peer : P -> Z -> list Z -> P * list (Z * list Z)) (st : mstate P) n,
+  (let '(a0, a1, a2) := src_configure_node_id n in configure_node_id peer st n = send_configure peer st a0 a1 a2) /\
+  (let '(a0, a1, a2) := src_configure_bit_timing n in configure_bit_timing peer st n = send_configure peer st a0 a1 a2) /\
+  (let '(a0, a1, a2) := src_store_configuration in store_configuration peer st = send_configure peer st a0 a1 a2).
+Proof. exact @src_configure_services_eq. Qed.
+
+(* __send_command: queue replaced (before the frame goes out) iff not empty; frame on LSS_TX_COBID; no answer awaited
+   unless message[0] is in ListMessageNeedResponse; empty queue at the time-out = LssError; else head of the queue *)
+Theorem C18_src_send_command : forall (P : Type) (peer : P -> Z -> list Z -> P * list (Z * list Z)) (st : mstate P) msg,
+  let q_empty := match responses st with [] => true | _ => false end in
+  let '(flushed, _, cob, _) := src_send_command q_empty (nth 0 msg 0) true false false 0 in
+  let st0 := if flushed then mkM [] (pst st) (bus st) else st in
+  let st1 := send_message peer st0 cob msg in
+  let timed_out := match responses st1 with [] => true | _ => false end in
+  let '(_, sent, _, code) := src_send_command q_empty (nth 0 msg 0) timed_out false false 0 in
+  sent = true /\
+  send_command peer st msg =
+  if code =? 1 then (st1, Ok None)
+  else if code =? 2 then (mkM (tl (responses st1)) (pst st1) (bus st1), Ok (hd_error (responses st1)))
+  else (st1, Err E_LSS).
+Proof. exact @src_send_command_eq. Qed.
+
 Print Assumptions C18_tables_are_cia305.
 Print Assumptions C18_need_response_table.
 Print Assumptions C18_fast_scan_finds_identity.
@@ -199,3 +317,14 @@ Print Assumptions C18_inquire_against_slave.
 Print Assumptions C18_configure_node_id_against_slave.
 Print Assumptions C18_configure_bit_timing_against_slave.
 Print Assumptions C18_store_against_slave.
+Print Assumptions C18_src_send_fast_scan_message.
+Print Assumptions C18_src_scan_bits_continue.
+Print Assumptions C18_src_scan_bit.
+Print Assumptions C18_src_scan_parts_continue.
+Print Assumptions C18_src_scan_part.
+Print Assumptions C18_src_fast_scan_init.
+Print Assumptions C18_src_send_inquire_node_id.
+Print Assumptions C18_src_send_inquire_lss_address.
+Print Assumptions C18_src_send_configure.
+Print Assumptions C18_src_configure_services.
+Print Assumptions C18_src_send_command.
